@@ -49,8 +49,12 @@ MUTANTS = [
  ("c17-tracer-restores-null", M, "      set_tracer(previous);", "      set_tracer(nullptr);", ["C17"]),
  ("c17-exception-silent", M, "          os << \"threw exception: what() = \" << e.what() << '\\n';", "          (void)e;", ["C17"]),
  ("c17-trace-in-ctor", M, "        os << name_ << \" with.\\n\";\n      }", "        os << name_ << \" with.\\n\";\n        t->trace(loc.file, loc.line, os.str());\n      }", ["C17"]),
- ("c14-seq-outlived", S, "      return seq->cost(this);", "      return seq.get()->cost(this);", []),  # placeholder (no-op): see revert of 990e553 below
+ ("c14-seq-outlived-raw-pointer", S, "    std::shared_ptr<sequence_type> seq;", "    sequence_type* seq;", ["C14"]),  # = revert of 990e553 (needs the second edit below)
 ]
+
+EXTRA = {
+ "c14-seq-outlived-raw-pointer": [("      , seq(i.second.obj)", "      , seq(i.second.obj.get())")],
+}
 
 def run(cmd, **kw):
     return subprocess.run(cmd, shell=True, stdout=subprocess.PIPE, stderr=subprocess.STDOUT, text=True, **kw)
@@ -74,7 +78,11 @@ def main():
                 log.write("MUTANT %s NOT-APPLIED (pattern occurs %d times)\n" % (name, s.count(old)))
                 log.flush()
                 continue
-            open(p, "w").write(s.replace(old, new))
+            s = s.replace(old, new)
+            for o2, n2 in EXTRA.get(name, []):
+                assert s.count(o2) == 1, (name, o2)
+                s = s.replace(o2, n2)
+            open(p, "w").write(s)
             for prop in props:
                 t0 = time.time()
                 env = dict(os.environ, VERIF_REPO=wt, VERIF_SCRATCH="1")
